@@ -82,7 +82,32 @@ def exemptReadonly : List String := [
   "Property.cssText", "Property.name", "Property.propertyValue", "Property.value", "Property.priority",
   -- edits the style of an existing margin rule, which has its own read-only flag; a CSSPageRule *created*
   -- read-only has no margin rules (its constructor takes none), so this branch is not reachable for such objects
-  "CSSPageRule.__setitem__"]
+  "CSSPageRule.__setitem__",
+  -- known finding C11-readonly-unguarded-2 (known/C11.json, proposed-fixes/C11-readonly-unguarded-2.diff): public
+  -- mutators WITHOUT the read-only guard; `finding_readonly_unguarded_2` proves that their scripts are not safe
+  "SelectorList.__delitem__", "CSSStyleSheet.cssRules", "CSSMediaRule.cssRules", "CSSPageRule.cssRules",
+  "CSSRule.atkeyword"]
+
+/-- **finding C11-readonly-unguarded-2 at model level**: each of the five scripts, started on a read-only object,
+has a completed way of ending with a changed field (the analysis is exact here: the scripts are straight-line
+assignments without any guard) -/
+theorem finding_readonly_unguarded_2 :
+    (["SelectorList.__delitem__", "CSSStyleSheet.cssRules", "CSSMediaRule.cssRules", "CSSPageRule.cssRules",
+      "CSSRule.atkeyword"].all fun n =>
+        Gen.C11.scripts.any fun m => m.name == n && !ReadonlySafe m.fields m.body && !guardedFirst m.body) = true := by
+  decide +kernel
+
+/-- … and concretely: `del selectorList[i]` run on a read-only object ends normally with the field changed -/
+example : (run 10 (.mutate 0) (St.init true) []).exit = .norm ∧
+    (run 10 (.mutate 0) (St.init true) []).st.cur 0 ≠ (St.init true).cur 0 := by decide
+
+/-- **finding C11-encoding-override-internal at model level**: the parser-internal helper
+`CSSStyleSheet._setCssTextWithEncodingOverride` (listed apart in `Gen.C11.internalScripts`, not a public mutator) does
+NOT pass the discipline: it stores `__encodingOverride` / `__newEncoding` before `cssText` may reject, and assigns
+`encoding` (which may reject) after the new rules are committed -/
+theorem finding_encoding_override_internal :
+    (Gen.C11.internalScripts.all fun m => !Disciplined m.fields m.body && !(dirtyOnExc m.fields m.body).isEmpty) = true := by
+  decide +kernel
 
 /-- **T11.3 (instances)** every extracted mutator, started on a read-only object, leaves every field unchanged
 however it ends (except `exemptReadonly`) -/
@@ -172,7 +197,8 @@ theorem call_deps_covered :
 each such (script, helper) pair carries a written justification in the translator, and none is unjustified -/
 theorem helper_deps_justified : Gen.C11.helperDepsUnjustified = [] := by decide
 
-theorem call_sites_counted : (Gen.C11.scripts.map fun m => countCalls m.body).sum = Gen.C11.callSites := by
+theorem call_sites_counted :
+    ((Gen.C11.scripts ++ Gen.C11.internalScripts).map fun m => countCalls m.body).sum = Gen.C11.callSites := by
   decide +kernel
 
 /-- the translator extracted every mutator it was asked for -/
